@@ -40,6 +40,25 @@ def mutate_gate(p, rng):
     return q
 
 
+def many_outputs(nout, flip):
+    """3 inputs, nout two-input gates that are all outputs; gate `flip` (if any) has the complementary type."""
+    import networkx as nx
+    from ..proj import proj_graph
+
+    g = nx.DiGraph()
+    for i in ("a", "b", "c"):
+        g.add_node(i, type="input", output=False)
+    types = ["and", "or", "xor", "nand", "nor", "xnor"]
+    comp = {"and": "nand", "or": "nor", "xor": "xnor", "nand": "and", "nor": "or", "xnor": "xor"}
+    pairs = [("a", "b"), ("b", "c"), ("a", "c")]
+    for k in range(nout):
+        t = types[k % 6]
+        g.add_node("o%02d" % k, type=comp[t] if k == flip else t, output=True)
+        for s in pairs[(k // 6) % 3]:
+            g.add_edge(s, "o%02d" % k)
+    return proj_graph(g, "many")
+
+
 def subsets(rng, names, proper_only=False):
     names = sorted(names)
     out = [None]
@@ -94,6 +113,9 @@ def cases(ctx):
                 pairs.append((p, proj(g), "G3swap") if r.random() < 0.5 else (proj(g), p, "G3swap"))
         else:
             pairs.append((p, "limit_fanin", "G3lf"))
+    for nout in (8, 9, 16, 17):
+        for which in ({0, nout - 1} if ctx.quick else set(range(nout))):
+            pairs.append((many_outputs(nout, None), many_outputs(nout, which), "MANY"))
     for k, (p0, p1, src) in enumerate(pairs):
         r = ctx.rng("C04s", k)
         in0 = {n for n, t in zip(p0["names"], p0["ty"]) if t == "input"}
